@@ -26,7 +26,7 @@ RULE = (
     "the histories follow optimizer-like F,G,F,G.. patterns at moving points); evaluator "
     "variants: label-driven recording evaluator, two different garbage fillings of inactive entries, memoizing "
     "evaluator that returns the same EvaluatorResult object / arrays for repeated requests, evaluator that returns "
-    "write-protected views of persistent buffers it refills on the next call; x handed in as a write-protected view. Oracle: trace predicate "
+    "write-protected views of persistent buffers it refills on the next call, evaluators that return Fortran-ordered, strided or float32 arrays; x handed in as a write-protected view. Oracle: trace predicate "
     "(needed label set each once, user-domain variables, reported value == transform(returned value at that label), "
     "inactive => weight 0, split: weight 0 => inactive), garbage metamorphic relation, deep-copy comparison of the "
     "evaluator's objects, immutability of delivered results. "
@@ -109,6 +109,34 @@ class Persistent:
         self.tag[...] = -1.0
 
 
+class Layout:
+    """Evaluator whose arrays are Fortran-ordered, strided views of a larger array, or float32."""
+
+    def __init__(self, inner: AffineEvaluator, kind: str) -> None:  # noqa: D107
+        self.inner, self.kind, self.calls = inner, kind, inner.calls
+
+    def convert(self, a: np.ndarray | None) -> np.ndarray | None:
+        if a is None:
+            return None
+        if self.kind == "fortran":
+            return np.asfortranarray(a)
+        if self.kind == "float32":
+            return a.astype(np.float32)
+        big = np.full((a.shape[0] * 2, a.shape[1] * 3), -4321.0)
+        big[::2, ::3] = a
+        return big[::2, ::3]
+
+    def __call__(self, variables: np.ndarray, context: EvaluatorContext) -> EvaluatorResult:
+        res = self.inner(variables, context)
+        result = EvaluatorResult(objectives=self.convert(res.objectives), constraints=self.convert(res.constraints),
+                                 evaluation_info=res.evaluation_info)
+        record = self.inner.calls[-1]
+        record["returned"] = result
+        record["objectives"] = np.array(result.objectives, dtype=np.float64)
+        record["constraints"] = None if result.constraints is None else np.array(result.constraints, dtype=np.float64)
+        return result
+
+
 def snapshot(result: EvaluatorResult) -> dict[str, Any]:
     return {
         "objectives": (result.objectives, result.objectives.copy()),
@@ -164,6 +192,8 @@ def build(case: dict[str, Any], garbage: float | None, memo: bool) -> tuple[EnOp
         ev = Memo(ev)
     elif case.get("readonly"):
         ev = Persistent(ev)
+    elif case.get("layout") and not case["memo"]:  # (the same array kind in both runs of the garbage relation)
+        ev = Layout(ev, case["layout"])
     design = np.array(case["design"], dtype=np.float64).reshape(r_n, p_n, n)
     manager = PluginManager()
     manager.add_plugin("sampler", "design", DesignSamplerPlugin([design, design * 0.5, -design]))
@@ -479,7 +509,7 @@ def hypothesis_shard(item: dict[str, Any]) -> Collector:
             "slopes": [draw(num) for _ in range(r_n * (k_n + c_n) * n)], "offsets": [draw(num) for _ in range(r_n * (k_n + c_n))],
             "design": [draw(st.sampled_from([-1.0, 1.0, 0.5, 0.0])) for _ in range(r_n * p_n * n)],
             "history": history, "memo": draw(st.booleans()), "readonly": draw(st.booleans()), "ro_x": draw(st.booleans()),
-            "info": draw(st.booleans()),
+            "info": draw(st.booleans()), "layout": draw(st.sampled_from([None, None, "fortran", "strided", "float32"])),
             "transforms": tr, "vscale": [draw(st.sampled_from([0.5, 2.0, 4.0])) for _ in range(n)],
             "voff": [draw(st.sampled_from([0.0, 1.0])) for _ in range(n)],
             "oscale": [draw(st.sampled_from([2.0, 0.5])) for _ in range(k_n)],
@@ -496,7 +526,8 @@ def hypothesis_shard(item: dict[str, Any]) -> Collector:
             "zero-weights" if 0.0 in case["weights"] else "positive-weights", "tiny-weights" if any(0 < w < 1e-6 for w in case["weights"]) else "no-tiny-weights", *(f"op={k}" for k in sorted(kinds)),
             "aborted" if stats["aborted"] else "completed", "info" if case["info"] else "no-info",
             "persistent-readonly-buffers" if case["readonly"] and not case["memo"] else "fresh-or-memo-arrays",
-            "readonly-x" if case["ro_x"] else "plain-x", f"splits={stats['splits']}" if stats["splits"] < 2 else "splits>=2"))  # noqa: PLR2004
+            "readonly-x" if case["ro_x"] else "plain-x",
+            f"layout={case['layout']}" if case["layout"] and not case["memo"] and not case["readonly"] else "layout=c-contiguous-float64", f"splits={stats['splits']}" if stats["splits"] < 2 else "splits>=2"))  # noqa: PLR2004
 
     run_hypothesis(col, cases(), body, seed=item["seed"], max_examples=item["examples"])
     return col
